@@ -21,6 +21,8 @@ DOCS = {
     "zones": "===DOC===\nCODE::\n```python\nprint('é\\t')\n```\nB:\n  ```\n  raw\n  ```\n===END===\n",
     "sets": "===DOC===\nSTATUS::x\nRISKS::[r1,r2]\nDECISIONS::d\nTESTS::t\nCI::c\nDEPS::[d1]\nOTHER::o\n===END===\n",
     "holo_schema": '===SCH===\nMETA:\n  TYPE::PROTOCOL_DEFINITION\n  VERSION::"1.0"\nPOLICY:\n  VERSION::"1.0"\n  UNKNOWN_FIELDS::WARN\n  TARGETS::[§INDEXER]\nFIELDS:\n  NAME::["x"∧REQ→§INDEXER]\n  KIND::["A"∧ENUM[A,B]→§INDEXER]\n===END===\n',
+    "bad_schema": '===BAD===\nMETA:\n  TYPE::PROTOCOL_DEFINITION\n  VERSION::"1.0"\nPOLICY:\n  VERSION::"1.0"\n  UNKNOWN_FIELDS::REJECT\nFIELDS:\n  STATUS::["ACTIVE"∧REQ∧ENUM[DRAFT,ACTIVE,DEPRECATED,DONE,DORMANT]]\n  N::[5∧OPT∧TYPE[NUMBER]∧RANGE[1,10]]\n  D::["aa"∧OPT∧REGEX["^a+$"]]\n  C::["X"∧OPT∧CONST[X]]\n  T::["s"∧OPT∧TYPE[STRING]∧MAX_LENGTH[2]]\n  MISSING::["m"∧REQ]\n===END===\n',
+    "bad_instance": '===INST===\nBAD:\n  STATUS::D\n  N::77\n  D::bbb\n  C::Y\n  T::toolong\n  ZZ::1\n  AA::2\n  MM::3\n===END===\n',
     "holo_instance": '===INST===\nSCH:\n  NAME::["y"∧REQ]\n  KIND::A\n  EXTRA2::1\n  EXTRA1::2\n===END===\n',
 }
 
@@ -80,6 +82,12 @@ def battery() -> dict[str, str]:
         out["validator.holo.errors"] = _j([(e.code, e.field_path, e.message) for e in errs])
         out["validator.holo.routing"] = _j(v.routing_log.to_dict())
         out["gbnf.holo"] = GBNFCompiler().compile_schema(sch, include_envelope=True)
+        # every kind of constraint failure (ambiguous ENUM prefix, RANGE, REGEX, CONST, MAX_LENGTH, missing REQ, unknown fields)
+        bsch = extract_schema_from_document(parse(DOCS["bad_schema"]))
+        bv = Validator(schema=None)
+        berrs = bv.validate(parse(DOCS["bad_instance"]), strict=True, section_schemas={bsch.name: bsch})
+        out["validator.bad.errors"] = _j([(e.code, e.field_path, e.message) for e in berrs])
+        out["gbnf.bad"] = GBNFCompiler().compile_schema(bsch, include_envelope=True)
     except Exception as e:  # noqa: BLE001
         out["validator.holo"] = f"{type(e).__name__}: {e}"
 
